@@ -72,7 +72,7 @@ EXTRA_ITEMS = [["DI", D_AMP], ["DI", D_HEADTAG], ["DI", D_HEADLIST], ["DI", D_HE
 HEADKIDS = [E("title", True, [T("user title")]), ["DI", D_A2], E("link", True, [], [["rel", "x"]]), HC_TAG,
             E("meta", True, [], [["charset", "iso-8859-1"]])]
 ATTRS = [[], [["lang", "en"]], [["class_", "k"]]]
-PREFIXES = ["lib", None, "a/b"]
+PREFIXES = ["lib", None, "a/b", "/abs/p"]
 
 
 # ------------------------------------------------------------ reference (R9)
